@@ -239,10 +239,7 @@ def CallOk (c0 : CP) (r : Except OpErr Unit) (s : State) : Prop :=
 
 def CallExc (c0 : CP) (s : State) : Prop := VInv s ∧ s.noPanic = c0.noPanic
 
-macro "vm_fvc" : tactic => `(tactic| (
-  try simp only [wrap_iff, StepOk, StepExc, StepPre, VInvB, FFPost, ThrowOk, ThrowExc, ThrowPre, RestSame, CallPre, CallOk,
-    CallExc, VInv, curFn, curF, FailOk, FailExc] at *
-  intros
+macro "vm_fvc1" : tactic => `(tactic| (
   try simp only [cpf, cpx, cp, CP.mk.injEq] at *
   try split_ands
   try simp_all +zetaDelta [stackSize, fn_setLast, fn_popHandler]
@@ -251,6 +248,12 @@ macro "vm_fvc" : tactic => `(tactic| (
     hasHandler_setLast, lastHandler_sp, hasHandler_of_last]
   try exact frameOK_noHandlers rfl
   try (simp only [CInv, frameSize] at *; simp_all; omega)))
+
+macro "vm_fvc" : tactic => `(tactic| (
+  try simp only [wrap_iff, StepOk, StepExc, StepPre, VInvB, FFPost, ThrowOk, ThrowExc, ThrowPre, RestSame, CallPre, CallOk,
+    CallExc, VInv, curFn, curF, FailOk, FailExc] at *
+  intros
+  first | (cases ‹Ctl› <;> vm_fvc1) | vm_fvc1))
 
 theorem frameOK_upd {f : Frame} (hf : FrameOK f) (fn : Option Addr) (hfn : f.fn = fn) (free : Option (List Addr))
     (ip bp : Int) (d : Bool) :
@@ -361,5 +364,34 @@ theorem callCompiled_spec (fa : Addr) (numArgs flags : Int) : ∀ (c0 : CP),
     | (apply frameOK_upd (CInv.get! (by assumption) _) _ (by assumption))
     | exact frameOK_congr (CInv.get! (by assumption) _) rfl rfl
     | trace_state)
+
+theorem callObject_spec (callee : V) (numArgs flags : Int) : ∀ (c0 : CP),
+    ⦃fun s => ⌜c0 = cp s ∧ CallPre numArgs s⌝⦄ callObject callee numArgs flags
+    ⦃post⟨fun r s => ⌜CallOk c0 r s⌝, fun _ s => ⌜CallExc c0 s⌝⟩⦄ := by
+  apply triple_of_fixed; intro s0 hpre
+  step_gen [callObject, stackSlice_spec, popArgs_spec]
+  all_goals (first | (vm_fvc; done) | skip)
+  all_goals (vm_fvc; trace_state)
+
+theorem callAny_spec (callee : V) (numArgs flags : Int) : ∀ (c0 : CP),
+    ⦃fun s => ⌜c0 = cp s ∧ CallPre numArgs s⌝⦄ callAny callee numArgs flags
+    ⦃post⟨fun r s => ⌜CallOk c0 r s⌝, fun _ s => ⌜CallExc c0 s⌝⟩⦄ := by
+  intro c0
+  unfold callAny
+  split
+  · exact callCompiled_spec _ _ _ c0
+  · exact callObject_spec _ _ _ c0
+
+theorem execCall_ok (np : Bool) : StepSpec np execCall := by
+  apply triple_of_fixed'; intro s0 hpre
+  step_gen [execCall, callAny_spec, failWith_spec]
+  all_goals (first | (vm_fvc; done) | skip)
+  all_goals (vm_fvc; trace_state)
+
+theorem execCallName_ok (np : Bool) : StepSpec np execCallName := by
+  apply triple_of_fixed'; intro s0 hpre
+  step_gen [execCallName, callAny_spec, failWith_spec]
+  all_goals (first | (vm_fvc; done) | skip)
+  all_goals (vm_fvc; trace_state)
 
 end UgoVerif.Proofs.VM
